@@ -5,6 +5,10 @@
 import AnthemModel.Syntax.Wire
 import AnthemModel.Model.Gamma
 import AnthemModel.Model.Simplify
+import AnthemModel.Model.TauStar
+import AnthemModel.Model.Completion
+import AnthemModel.Model.Analyze
+import AnthemModel.Syntax.WireProblem
 import Driver.Search
 open Anthem
 
@@ -65,6 +69,48 @@ def respond (req : Sexp) : Sexp :=
       let (g, ok) := simplifyWith p s fuel f
       .list [.atom (if ok then "ok" else "timeout"), g.toSexp]
     | _, _, _, _ => bad
+  | .list [.atom "tau_star", p] =>
+    match Asp.programOfSexp p with
+    | some p => if globalsPanic p then .list [.atom "panic"] else theoryToSexp (tauStar p)
+    | none => bad
+  | .list [.atom "natural", p] =>
+    match Asp.programOfSexp p with
+    | some p => optToSexp theoryToSexp (natural p)
+    | none => bad
+  | .list [.atom "mu", p] =>
+    match Asp.programOfSexp p with
+    | some p => if globalsPanic p then .list [.atom "panic"] else theoryToSexp (mu p)
+    | none => bad
+  | .list [.atom "is_regular", p] =>
+    match Asp.programOfSexp p with
+    | some p => Sexp.ofBool (isRegular p)
+    | none => bad
+  | .list [.atom "is_tight", p] =>
+    match Asp.programOfSexp p with
+    | some p => Sexp.ofBool (isTight p)
+    | none => bad
+  | .list [.atom "private_recursion", p, priv] =>
+    match Asp.programOfSexp p, listOf Pred.ofSexp priv with
+    | some p, some priv => Sexp.ofBool (hasPrivateRecursion p priv)
+    | _, _ => bad
+  | .list [.atom "completion", t, inputs] =>
+    match theoryOfSexp t, listOf Pred.ofSexp inputs with
+    | some t, some inputs => optToSexp theoryToSexp (completion t inputs)
+    | _, _ => bad
+  | .list [.atom "break_eq", f] =>
+    match Formula.ofSexp f with
+    | some f => theoryToSexp (breakEquivalencesFormula f)
+    | none => bad
+  | .list [.atom "strong", l, r, .atom dec, .atom dir, .atom rep, simp, brk, fuel] =>
+    match Asp.programOfSexp l, Asp.programOfSexp r, Decomposition.ofName dec, Direction.ofName dir,
+        FormulaRep.ofName rep, simp.asBool?, brk.asBool?, fuel.asNat? with
+    | some l, some r, some dec, some dir, some rep, some simp, some brk, some fuel =>
+      let t : StrongTask := ⟨l, r, dec, dir, rep, simp, brk⟩
+      if strongPanics t then .list [.atom "panic"]
+      else match strongProblems t fuel with
+        | some ps => .list (ps.map Problem.toSexp)
+        | none => .list [.atom "timeout"]
+    | _, _, _, _, _, _, _, _ => bad
   | .list [.atom "free_vars", f] =>
     match Formula.ofSexp f with
     | some f => .list (f.fv.map Var.toSexp)
